@@ -45,6 +45,7 @@ type CPU struct {
 	lo, hi  uint8 // immediate operands / temporaries
 	tmp     uint8
 	Acc     []Access // data accesses of the current instruction
+	Fetched []uint16 // addresses of the instruction-stream bytes of the current instruction
 	Kind    string   // "instr", "dispatch", "halt-idle", "halt-wake"
 	Vector  uint16   // for dispatch
 	OpPC    uint16   // address of the opcode of the instruction in flight
@@ -302,6 +303,7 @@ func nopStep(c *CPU) {}
 // begin selects what happens at an instruction boundary.
 func (c *CPU) begin() {
 	c.Acc = c.Acc[:0]
+	c.Fetched = c.Fetched[:0]
 	c.Cycles = 0
 	c.idx = 0
 	c.done = false
@@ -338,7 +340,7 @@ func (c *CPU) begin() {
 	}
 	c.Kind = "instr"
 	c.OpPC = c.PC
-	c.op = c.Bus.Fetch(c.PC)
+	c.op = c.fetchAt(c.PC)
 	if c.HaltBug {
 		c.HaltBug = false
 	} else {
@@ -347,7 +349,7 @@ func (c *CPU) begin() {
 	c.cb = false
 	if c.op == 0xcb {
 		c.cb = true
-		c.op = c.Bus.Fetch(c.PC)
+		c.op = c.fetchAt(c.PC)
 		c.PC++
 		c.steps = c.decodeCB()
 		return
@@ -355,13 +357,20 @@ func (c *CPU) begin() {
 	c.steps = c.decode()
 }
 
+// fetchAt reads one byte of the instruction stream and notes its address (instruction-stream
+// fetches are not timed, but an observer of the bus needs to tell them from data reads).
+func (c *CPU) fetchAt(a uint16) uint8 {
+	c.Fetched = append(c.Fetched, a)
+	return c.Bus.Fetch(a)
+}
+
 func (c *CPU) fetch8() {
-	c.lo = c.Bus.Fetch(c.PC)
+	c.lo = c.fetchAt(c.PC)
 	c.PC++
 }
 func (c *CPU) fetch16() {
-	c.lo = c.Bus.Fetch(c.PC)
-	c.hi = c.Bus.Fetch(c.PC + 1)
+	c.lo = c.fetchAt(c.PC)
+	c.hi = c.fetchAt(c.PC + 1)
 	c.PC += 2
 }
 
